@@ -407,187 +407,27 @@ def _offset_delta(ctx: Ctx, fn: FuncInfo, count_param: str, recursive: str) -> L
 
 
 def rule_r3(ctx: Ctx) -> None:
-    ctx.rule("C07.R3", "offset accounting: read_bits / write_bits advance by exactly bit_length on every path (incl. out-of-limit reads, which return zeros); bounded_subreader(n) advances the parent by n; align_to only moves forward", min_instances=4)
-    rb = ctx.func(SD + "._BitReader.read_bits")
-    res = _offset_delta(ctx, rb, rb.params[1], "read_bits")
-    bad = [r for r in res if not r["ok"]]
-    ctx.count(len(res))
-    ctx.check(not bad and len(res) >= 4, rb.short, "%d paths, net advance == bit_length" % len(res), "every read consumes exactly the requested number of bits, within or beyond the limit", rb.where(), bad or res[:3])
-    # out-of-limit path returns zero
-    zero_path = [r for r in res if "available" in r["path"] or "max(0" in r["path"]]
-    z = [r for r in res if r["returns"] == "0"]
-    ctx.check(len(z) >= 1, rb.short, "exhausted limit returns 0", "reads beyond the limit of a bounded sub-reader yield zeros", rb.where(), [r["path"] for r in z])
-    wb = ctx.func(SD + "._BitWriter.write_bits")
-    res = _offset_delta(ctx, wb, wb.params[2], "write_bits")
-    bad = [r for r in res if not r["ok"]]
-    ctx.count(len(res))
-    ctx.check(not bad and len(res) >= 2, wb.short, "%d paths, net advance == bit_length" % len(res), "every write produces exactly the requested number of bits", wb.where(), bad or res[:3])
-    bs = ctx.func(SD + "._BitReader.bounded_subreader")
-    res = _offset_delta(ctx, bs, bs.params[1], "read_bits")
-    ctx.check(all(r["ok"] for r in res) and bool(res), bs.short, "parent advances by bit_count", "the parent reader skips the whole nested object regardless of what the sub-reader consumes", bs.where(), res)
-    rets = [p for p in paths_of(ctx.inl(bs)) if p.kind == "return"]
-    good = len(rets) == 1 and isinstance(rets[0].value, ast.Call) and norm(rets[0].value.func).endswith("_BitReader")
-    if good:
-        # bind the constructor call to the constructor's parameters (positional or by keyword)
-        init = ctx.func(SD + "._BitReader.__init__")
-        ps = init.params[1:]
-        call = rets[0].value
-        bound = {p: norm(a) for p, a in zip(ps, call.args)}
-        bound.update({k.arg: norm(k.value) for k in call.keywords if k.arg})
-        good = len(ps) == 3 and [bound.get(p) for p in ps] == ["self._data", "self._bit_offset", bs.params[1]]
-    ctx.check(good, bs.short, norm(rets[0].value) if rets else "?", "the sub-reader starts at the parent's current offset with the given limit over the same buffer", bs.where())
-    for cname in ("_BitReader", "_BitWriter"):
-        al = ctx.func("%s.%s.align_to" % (SD, cname))
-        # net advance on every completing path, as a function of (offset, alignment): (-offset) mod alignment
-        bad_al = []
-        paths = [p for p in paths_of(ctx.inl(al)) if p.kind in ("return", "fall")]
-        for off in range(0, 20):
-            for a_ in (1, 2, 3, 8, 16):
-                taken = []
-                for p in paths:
-                    okp = True
-                    delta = 0
-                    try:
-                        for c, pol in p.conds:
-                            if isinstance(c, tuple):
-                                continue
-                            if bool(Folder({"self._bit_offset": off, al.params[1]: a_}, ctx.repo, al.module, al.cls).fold(c)) != pol:
-                                okp = False
-                                break
-                        if okp:
-                            for ev in p.events:
-                                if isinstance(ev, tuple) and ev[0] == "assign" and "self._bit_offset" in ev[1]:
-                                    delta = Folder({"self._bit_offset": off, al.params[1]: a_}, ctx.repo, al.module, al.cls).fold(ev[2]) - off
-                                elif isinstance(ev, ast.AST):
-                                    for n_ in ast.walk(ev):
-                                        if isinstance(n_, ast.Call) and norm(n_.func) in ("self.write_bits", "self.read_bits"):
-                                            delta += Folder({"self._bit_offset": off, al.params[1]: a_}, ctx.repo, al.module, al.cls).fold(n_.args[-1])
-                    except Unfoldable as ex:
-                        raise AnalysisError("%s: cannot fold: %s" % (al.short, ex))
-                    if okp:
-                        taken.append(delta)
-                ctx.count()
-                if len(taken) != 1 or taken[0] != (-off) % a_:
-                    bad_al.append({"offset": off, "alignment": a_, "advance": taken, "expected": (-off) % a_})
-        ctx.check(not bad_al, al.short, "pads forward to the next multiple", "alignment only moves forward, by (-offset) mod alignment (100 points)", al.where(), bad_al[:3], nontrivial=False)
+    """the bit reader and the bit writer evaluated through their public interfaces (bitreader_common)"""
+    from . import bitreader_common as BR
 
-
-def _max0_arg(e: ast.AST) -> Optional[ast.AST]:
-    """max(0, X) -> X"""
-    if isinstance(e, ast.Call) and dotted(e.func) == "max" and len(e.args) == 2:
-        a, b = e.args
-        if isinstance(a, ast.Constant) and a.value == 0:
-            return b
-        if isinstance(b, ast.Constant) and b.value == 0:
-            return a
-    return None
-
-
-def bitreader_limit_fields(ctx: Ctx) -> Tuple[str, Set[str], Dict[str, ast.AST]]:
-    """(name of the constructor's limit parameter, the fields derived from it, all constructor stores)"""
-    init = ctx.func(SD + "._BitReader.__init__")
-    stores: Dict[str, ast.AST] = {}
-    for st in walk_no_nested(init.node):
-        if isinstance(st, (ast.Assign, ast.AnnAssign)):
-            t = st.targets[0] if isinstance(st, ast.Assign) else st.target
-            if norm(t).startswith("self._") and st.value is not None:
-                stores[norm(t)] = st.value
-    limit_param = [p for p in init.params if "limit" in p]
-    if len(limit_param) != 1:
-        raise AnalysisError("_BitReader.__init__: cannot identify the limit parameter among %s" % init.params)
-    lp = limit_param[0]
-    limit_fields = {k for k, v in stores.items() if any(isinstance(x, ast.Name) and x.id == lp for x in ast.walk(v))}
-    if not limit_fields:
-        raise AnalysisError("_BitReader.__init__ stores nothing derived from %s" % lp)
-    return lp, limit_fields, stores
-
-
-class _BoundedCase(ast.NodeTransformer):
-    """specialise an expression to the bounded reader: (X if <limit> is None else Y) -> Y, (Y if <limit> is not None else X) -> Y"""
-
-    def __init__(self, limit_names: Set[str]):
-        self.names = limit_names
-
-    def visit_IfExp(self, n: ast.IfExp) -> ast.AST:
-        n = self.generic_visit(n)  # type: ignore
-        t = n.test
-        if isinstance(t, ast.Compare) and len(t.ops) == 1 and isinstance(t.comparators[0], ast.Constant) and t.comparators[0].value is None and norm(t.left) in self.names:
-            if isinstance(t.ops[0], ast.Is):
-                return n.orelse
-            if isinstance(t.ops[0], ast.IsNot):
-                return n.body
-        return n
+    ctx.rule("C07.R3", "offset accounting: read_bits / write_bits advance by exactly bit_length on every path (incl. out-of-limit reads, which return zeros); bounded_subreader(n) advances the parent by n; align_to only moves forward", min_instances=3)
+    rd = ctx.cls(SD + "._BitReader")
+    bad = BR.run_model(ctx)
+    steps = getattr(ctx, "_bitreader_steps", 0)
+    ctx.check(not bad["offset"], rd.short, "position after every read / alignment / sub-reader over the grid of position classes (%d steps)" % steps, "every read consumes exactly the requested number of bits, within or beyond the limit; a sub-reader takes its whole window out of the parent; alignment only moves forward", rd.module.relpath, bad["offset"][:3])
+    ctx.check(not bad["value"], rd.short, "what reads return within, across and beyond the data / the window", "reads beyond the limit of a bounded sub-reader (or beyond the data) yield zeros; bits are taken LSB first", rd.module.relpath, bad["value"][:3])
+    wr = ctx.cls(SD + "._BitWriter")
+    badw = BR.run_writer_model(ctx)
+    ctx.check(not badw, wr.short, "position and output after every write / alignment (%d steps)" % getattr(ctx, "_bitwriter_steps", 0), "every write produces exactly the requested number of bits, LSB first; alignment pads with zeros", wr.module.relpath, badw[:3])
 
 
 def rule_r5(ctx: Ctx) -> None:
-    ctx.rule("C07.R5", "limit accounting agrees between siblings: the bits still available to a bounded reader are the same quantity in read_bits and in remaining_bits, and equal the given limit right after construction", min_instances=2)
-    from ..decide import substitute
+    from . import bitreader_common as BR
 
+    ctx.rule("C07.R5", "limit accounting agrees between siblings: the bits still available to a bounded reader are the same quantity in read_bits and in remaining_bits, and equal the given limit right after construction", min_instances=1)
     rd = ctx.cls(SD + "._BitReader")
-    rb = ctx.func(SD + "._BitReader.read_bits")
-    rem = ctx.func(SD + "._BitReader.remaining_bits")
-    init = ctx.func(SD + "._BitReader.__init__")
-    lp, limit_fields, stores = bitreader_limit_fields(ctx)
-    restored: Set[str] = set()
-    for name, m in rd.methods.items():
-        if name == "__init__":
-            continue
-        for st in ast.walk(m.node):
-            tg = []
-            if isinstance(st, ast.Assign):
-                tg = st.targets
-            elif isinstance(st, (ast.AugAssign, ast.AnnAssign)):
-                tg = [st.target]
-            restored |= {norm(t) for t in tg if norm(t).startswith("self._")}
-    bc = _BoundedCase({lp} | limit_fields)
-    fixed_env = {k: bc.visit(ast.parse(norm(v), mode="eval").body) for k, v in stores.items() if k not in restored}
-    init_env = {k: bc.visit(ast.parse(norm(v), mode="eval").body) for k, v in stores.items()}
-
-    def limited(c: Any, pol: bool) -> bool:
-        """the path is the bounded reader's: `<limit field> is not None` taken, or `<limit field> is None` not taken"""
-        if isinstance(c, tuple) or not (isinstance(c, ast.Compare) and len(c.ops) == 1 and norm(c.left) in limit_fields and norm(c.comparators[0]) == "None"):
-            return False
-        return (isinstance(c.ops[0], ast.IsNot) and pol) or (isinstance(c.ops[0], ast.Is) and not pol)
-
-    def bounded_value_of_property(name: str) -> Optional[ast.AST]:
-        """what the property returns for a bounded reader, as max(0, X) -> X"""
-        prop = rd.methods.get(name)
-        if prop is None or not prop.is_property:
-            return None
-        for p in paths_of(ctx.inl(prop)):
-            if p.kind == "return" and any(limited(c, pol) for c, pol in p.conds):
-                return _max0_arg(p.value)
-        return None
-
-    def available(e: ast.AST) -> Optional[ast.AST]:
-        m = _max0_arg(e)
-        if m is not None:
-            return m
-        if isinstance(e, ast.Attribute) and norm(e.value) == "self":
-            return bounded_value_of_property(e.attr)
-        return None
-
-    # read_bits: the quantity compared with bit_length on the limited branch
-    avail_rb = None
-    for p in paths_of(ctx.inl(rb, keep=("read_bits",))):
-        if not any(limited(c, pol) for c, pol in p.conds):
-            continue
-        for c, pol in p.conds:
-            if not isinstance(c, tuple) and isinstance(c, ast.Compare) and len(c.ops) == 1:
-                l, r = norm(c.left), norm(c.comparators[0])
-                if l == rb.params[1] and isinstance(c.ops[0], (ast.Gt, ast.GtE, ast.Lt, ast.LtE)):
-                    avail_rb = available(c.comparators[0]) or avail_rb
-                elif r == rb.params[1] and isinstance(c.ops[0], (ast.Gt, ast.GtE, ast.Lt, ast.LtE)):
-                    avail_rb = available(c.left) or avail_rb
-    avail_rem = bounded_value_of_property("remaining_bits")
-    if avail_rb is None or avail_rem is None:
-        raise AnalysisError("_BitReader: cannot find max(0, <available>) on the bounded branch of read_bits (%s) / remaining_bits (%s)" % (norm(avail_rb) if avail_rb else None, norm(avail_rem) if avail_rem else None))
-    la, lr = lin_of(substitute(avail_rb, fixed_env)), lin_of(substitute(avail_rem, fixed_env))
-    ctx.check((la - lr).is_zero(), "_serdes._BitReader", "read_bits: %s ; remaining_bits: %s" % (la, lr), "both must compute the same remaining bit count, otherwise header validation and reading disagree about the sub-reader's window", rem.where(), {"read_bits": norm(avail_rb), "remaining_bits": norm(avail_rem), "fields fixed at construction": {k: norm(v) for k, v in fixed_env.items()}})
-    # right after construction the available count equals the limit argument
-    at_init = lin_of(substitute(avail_rem, init_env))
-    want = Lin({lp: 1})
-    ctx.check((at_init - want).is_zero(), init.short, "available at construction = %s" % at_init, "a fresh bounded reader has exactly `%s` bits available, wherever it starts" % lp, init.where(), {k: norm(v) for k, v in init_env.items()})
+    bad = BR.run_model(ctx)
+    ctx.check(not bad["remaining"], rd.short + ".remaining_bits", "remaining_bits after every operation == distance to the end of the window (or of the data), never negative", "header validation (remaining_bits) and reading (read_bits) must agree about the sub-reader's window", rd.module.relpath, bad["remaining"][:3])
 
 
 MEMO_DECORATORS = ("lru_cache", "cache", "cached_property", "memoize", "memoized")
